@@ -33,6 +33,9 @@ CONSTANTS Data,                  \* set of data points (naturals)
           DropUpdateOnRemoveDP,  \* deviation: remove_data_point_from_node refreshes from the parent only
           DropUpdateOnGraft,     \* deviation: add_subtree without the path-to-root update (and no full update by the caller)
           RelabelKeepsKeys,      \* deviation: graft never relabels clashing names
+          HostEdits,             \* TRUE: the grammar also edits the host while an extracted subtree is alive (two live trees;
+                                 \* the samplers never do this, library users and the harness's extract-then-edit histories do)
+          SharedPayloads,        \* deviation: get_subtree hands out the host's own node payloads instead of copies
           MaxName,               \* bound on clone names (graft relabelling draws fresh names above the maximum)
           DumpEdges              \* print every labelled edge as JSON
 
@@ -154,7 +157,7 @@ InvConserved ==
   CASE mode = "idle" -> Held(cur) = Data
     [] mode = "build" -> Held(cur) \subseteq Data
     [] mode = "dp" -> Held(cur) \cup {pend.p} = Data /\ pend.p \notin Held(cur)
-    [] mode \in {"prg1"} -> Held(cur) = Data
+    [] mode \in {"prg1", "prgx"} -> Held(cur) = Data
     [] mode \in {"prg2", "sub2", "sub3"} -> Held(cur) \cup Held(sub) = Data /\ Held(cur) \cap Held(sub) = {}
     [] mode = "sub1" -> Held(cur) = Data
     [] mode = "subbuild" -> Held(cur) \cup pend.D = Data /\ Held(cur) \cap pend.D = {} /\ Held(sub) \subseteq pend.D
@@ -196,6 +199,19 @@ PrgAdd == /\ mode = "prg2"
                  /\ cur' = UpdateAll(AddSubtree(cur, sub, p, ren))
                  /\ act' = [name |-> "add_subtree_update", parent |-> p]
           /\ sub' = EmptyTree /\ pend' = NoPend /\ mode' = "idle"
+\* G3'  two live trees: a data point is moved inside the host while the extracted subtree is alive; the subtree is then dropped.
+\* As implemented the extracted subtree owns copies of the node payloads and is unaffected; with SharedPayloads the own-data
+\* term of a clone both trees contain changes under the subtree's feet (its path to the root is not refreshed).
+PrgEditHost == /\ HostEdits /\ mode = "prg1"
+               /\ \E a \in cur.nodes : \E b \in cur.nodes \ {a} : \E d \in cur.dat[a] :
+                     /\ Cardinality(cur.dat[a]) > 1
+                     /\ cur' = AddDP(RemDP(cur, d, a), d, b)
+                     /\ sub' = IF SharedPayloads
+                               THEN [sub EXCEPT !.psig = [v \in sub.nodes |-> IF v = a THEN sub.psig[v] \ {d} ELSE IF v = b THEN sub.psig[v] \cup {d} ELSE sub.psig[v]]]
+                               ELSE sub
+                     /\ act' = [name |-> "host_move_dp", d |-> d, from |-> a, to |-> b]
+               /\ mode' = "prgx" /\ UNCHANGED pend
+PrgDrop == /\ mode = "prgx" /\ sub' = EmptyTree /\ pend' = NoPend /\ mode' = "idle" /\ act' = [name |-> "drop_subtree"] /\ UNCHANGED cur
 \* G4  subtree resampling: extract below parent-of-a-clone, hand outliers over, rebuild by SMC, reattach
 SubGet == /\ mode = "idle" /\ \E c \in cur.nodes : LET sr == cur.par[c] IN
                /\ sub' = GetSubtree(cur, sr)
@@ -223,7 +239,7 @@ SubAttach == /\ mode = "subbuild" /\ Placed(sub) = pend.D
 RelabelNodes == /\ mode = "idle" /\ \E f \in Preorders(cur) : cur' = Relabel(cur, f) /\ UNCHANGED <<sub, mode, pend>>
                 /\ act' = [name |-> "relabel_nodes"]
 RoundTrip == /\ mode = "idle" /\ cur' = DictRoundTrip(cur) /\ UNCHANGED <<sub, mode, pend>> /\ act' = [name |-> "dict_round_trip"]
-Next == Build \/ DPRemove \/ DPAdd \/ PrgGet \/ PrgRemove \/ PrgAdd \/ SubGet \/ SubRemove \/ SubOutliers
+Next == Build \/ DPRemove \/ DPAdd \/ PrgGet \/ PrgRemove \/ PrgAdd \/ PrgEditHost \/ PrgDrop \/ SubGet \/ SubRemove \/ SubOutliers
         \/ SubRebuildStart \/ SubBuild \/ SubAttach \/ RelabelNodes \/ RoundTrip
 NameBound == \A v \in cur.nodes \cup sub.nodes : v <= MaxName
 Spec == Init /\ [][Next]_vars
